@@ -231,9 +231,19 @@ func rewrite(rel string, src []byte) ([]byte, bool) {
 
 	if chanFiles[rel] {
 		needImp := false
+		comm := map[ast.Stmt]bool{} // communication clauses of select statements stay as they are
+		ast.Inspect(f, func(n ast.Node) bool {
+			if cc, ok := n.(*ast.CommClause); ok && cc.Comm != nil {
+				comm[cc.Comm] = true
+			}
+			return true
+		})
 		ast.Inspect(f, func(n ast.Node) bool {
 			switch x := n.(type) {
 			case *ast.ExprStmt:
+				if comm[x] {
+					return true
+				}
 				if u, ok := x.X.(*ast.UnaryExpr); ok && u.Op == token.ARROW {
 					edits = append(edits, edit{off(u.Pos()), off(u.X.Pos()), "vchan.RecvDiscard("})
 					edits = append(edits, edit{off(u.End()), off(u.End()), ")"})
